@@ -345,6 +345,22 @@ class Interp:
                 self.ev(s.value, env)
         elif isinstance(s, (ast.Pass, ast.Global, ast.Nonlocal)):
             pass
+        elif isinstance(s, ast.Delete):
+            for t in s.targets:
+                if isinstance(t, ast.Subscript):
+                    base = self.ev(t.value, env)
+                    k = self.ev(t.slice, env)
+                    if isinstance(base, (list, dict)):
+                        try:
+                            del base[k]
+                        except (IndexError, KeyError):
+                            raise Reject(f"del of missing item {k!r}")
+                    else:
+                        raise AnalysisError(f"absint: unsupported del target {src(t)}")
+                elif isinstance(t, ast.Name):
+                    env.vars.pop(t.id, None)
+                else:
+                    raise AnalysisError(f"absint: unsupported del target {src(t)}")
         elif isinstance(s, ast.Break):
             raise _Break()
         elif isinstance(s, ast.Continue):
@@ -563,7 +579,10 @@ class Interp:
                 return base.params[attr]
             if attr == "width" and "width" in base.params:
                 return base.params["width"]
-        if isinstance(base, (list, dict, str, tuple)) and attr in ("append", "extend", "items", "keys", "values", "get", "bit_length", "pop", "insert", "index", "copy", "format"):
+        if isinstance(base, (list, dict, str, tuple, set)) and attr in ("append", "extend", "items", "keys", "values", "get", "bit_length", "pop", "insert", "index", "copy", "format",
+                                                                        "remove", "clear", "count", "sort", "reverse", "add", "discard", "update", "setdefault", "join", "startswith", "endswith"):
+            if not hasattr(base, attr):
+                raise AnalysisError(f"absint: {type(base).__name__} has no attribute {attr}")
             return getattr(base, attr)
         if isinstance(base, int) and attr in ("bit_length", "bit_count"):
             return getattr(base, attr)
